@@ -4,6 +4,7 @@
 From Coq Require Import QArith Qcanon.
 From Amgcl Require Import Scalar QcInst Vec Crs Kernels KernelsProofs MatOps MatOpsProofs Relax DenseSolve
   Amg AmgExec AmgProofs AmgProofs2 AmgProofs3 AmgProofs4 AmgProofs5 AmgProofs6.
+From Amgcl Require Export AmgExampleData.
 Local Close Scope Qc_scope.
 Local Close Scope Q_scope.
 Local Open Scope S_scope.
@@ -81,30 +82,5 @@ Qed.
 
 End Checkers.
 
-(* ------------------------------------------------------------------ *)
-(* a concrete problem over Qc: 1D Laplacian (n = 4, rows stored unsorted), pairwise
-   aggregation twice; direct solver on the 1 x 1 coarsest level *)
-Definition exq (n : Z) : T QcS := qc n 1.
-Definition exM : crs QcS := mkCrs 4
-  [[(1, exq (-1)); (0, exq 2)]; [(0, exq (-1)); (1, exq 2); (2, exq (-1))];
-   [(3, exq (-1)); (2, exq 2); (1, exq (-1))]; [(2, exq (-1)); (3, exq 2)]]%nat.
-Definition exP1 : crs QcS := mkCrs 2 [[(0, exq 1)]; [(0, exq 1)]; [(1, exq 1)]; [(1, exq 1)]]%nat.
-Definition exR1 : crs QcS := mkCrs 4 [[(1, exq 1); (0, exq 1)]; [(2, exq 1); (3, exq 1)]]%nat.
-Definition exP2 : crs QcS := mkCrs 1 [[(0, exq 1)]; [(0, exq 1)]]%nat.
-Definition exR2 : crs QcS := mkCrs 2 [[(0, exq 1); (1, exq 1)]]%nat.
-Definition exTs := [Some (exP1, exR1); Some (exP2, exR2)].
-(* three levels, direct solver at the bottom *)
-Definition exH := amg_init 1 true 10 (@galerkin QcS) exTs exM.
-(* three levels, smoother at the bottom *)
-Definition exH' := amg_init 1 false 10 (@galerkin QcS) exTs exM.
-Definition exJac : @relax_kind QcS := RJacobi (qc 2 3).
 Definition exLvls := std_levels exJac exH.
 Definition exLvls' := std_levels exJac exH'.
-Definition exScr0 := map (@fresh_scratch QcS) exH.
-(* a "dirty" scratch: same lengths, arbitrary contents *)
-Definition exDirty : list (@scratch QcS) :=
-  [mkScratch [exq 5; exq 7; exq (-3); exq 1] [exq 1; exq 1; exq 2; exq 9] [exq 4; exq 4; exq 4; exq 4];
-   mkScratch [exq 8; exq (-8)] [exq 6; exq 2] [exq 3; exq 1];
-   mkScratch [exq 11] [exq 12] [exq 13]].
-Definition exF : vec QcS := [exq 1; exq 2; exq 3; exq 4].
-Definition exG : vec QcS := [exq 0; exq (-1); exq 5; exq 2].
